@@ -92,7 +92,8 @@ class BuiltinMixin:
         if self._need(v, node, env, frame, ("TypeError", "ValueError"), "dict() of input node"):
             pass
         if v.types & {"dict"}:
-            return replace(v, types=frozenset({"dict"}), org=frozenset())
+            from .aval import shallow
+            return replace(shallow(v), types=frozenset({"dict"}))
         el = self._iterate(v, node, env, frame) if not v.is_json else elem_of(v)
         if el.tup is not None and len(el.tup) == 2:
             return mk("dict", key=el.tup[0], elem=el.tup[1], nonempty=v.nonempty, taint=v.taint and 1)
@@ -304,7 +305,8 @@ class BuiltinMixin:
         if v.inst_classes() and v.fields is None:
             return self._shallow_inst(v)
         # shallow: new outer object, same elements / field values
-        return replace(v, org=frozenset())
+        from .aval import shallow
+        return shallow(v)
 
     def _shallow_inst(self, v):
         # generic instance: the copy is a fresh object whose (unknown) fields alias the original's
